@@ -1046,10 +1046,12 @@ def compile_match_from_query(query_items: tuple):
         elif key == "kinds":
             col = FIELDS_TO_COLUMNS["kind"]
             filter_clauses.add(f"(et[{col}] in {value!r})")
-        elif key == "since" and value:
-            col = FIELDS_TO_COLUMNS["created_at"]
-            filter_clauses.add(f"(et[{col}] >= {value!r})")
-        elif key == "until" and value:
+        elif key == "since":
+            # (since 0 bounds nothing - but it is not a tag name either)
+            if value:
+                col = FIELDS_TO_COLUMNS["created_at"]
+                filter_clauses.add(f"(et[{col}] >= {value!r})")
+        elif key == "until":
             col = FIELDS_TO_COLUMNS["created_at"]
             filter_clauses.add(f"(et[{col}] <= {value!r})")
         elif key == "search" and Config.fts_enabled:
